@@ -45,7 +45,10 @@ MANIFEST = {
             'nning(name), has_jobs()) at its first and last statement.'
             ' A polling client reads has_jobs() 2-40 times in 30 % of the'
             ' scenarios (never False between the hand-over of a queued jo'
-            'b and its end); job names carry blanks at either end.',
+            'b and its end); job names carry blanks at either end.'
+            ' One scenario in a hundred queues 18-130 jobs behind one tha'
+            't runs until stopped; an idle second controller is questione'
+            'd with every status call.',
     'note': 'Trusted: scheduler shims (Thread, RLock, Event), the sequential '
             'model. The 1 s lock time-out of JobControl never fires while the '
             'owner can run; bytecode-level switches inside one statement are '
